@@ -33,7 +33,11 @@ type serverConn struct {
 	parser   parser.Parser
 
 	closeOnce sync.Once
-	debug     Debugger
+	// Set (before the sockets are closed) when the connection is closed.
+	closed      bool
+	closeReason Reason
+	closedMu    sync.Mutex
+	debug       Debugger
 }
 
 func newServerConn(
@@ -161,6 +165,17 @@ func (c *serverConn) connect(header *parser.PacketHeader, decode parser.Decode) 
 
 	c.sockets.set(socket)
 	c.nsps.set(nsp)
+
+	// The connection might have been closed while the middlewares were running,
+	// after onClose has gone through the sockets it knew.
+	c.closedMu.Lock()
+	closed, reason := c.closed, c.closeReason
+	c.closedMu.Unlock()
+	if closed {
+		c.sockets.removeByID(socket.ID())
+		c.nsps.remove(nsp.Name())
+		socket.onClose(reason)
+	}
 }
 
 func (c *serverConn) connectError(message any, nsp string) {
@@ -235,6 +250,10 @@ func (c *serverConn) onClose(reason Reason, err error) {
 	// We don't want it to close more than once,
 	// so we use sync.Once to avoid running onClose more than once.
 	c.closeOnce.Do(func() {
+		c.closedMu.Lock()
+		c.closed, c.closeReason = true, reason
+		c.closedMu.Unlock()
+
 		sockets := c.sockets.getAndRemoveAll()
 		for _, socket := range sockets {
 			socket.onClose(reason)
